@@ -252,7 +252,7 @@ func (v *Verifier) eval(fr *Frame, st *State, e ast.Expr) Val {
 		sh := v.eng.shapeOf(v.typeOf(fr, x))
 		return OpaqueVal{Sh: sh, ID: v.eng.C.Fresh("funclit", IntSort), Nil: v.eng.C.False()}
 	case *ast.TypeAssertExpr:
-		panic(unsupportedf(x.Pos(), "type assertion"))
+		return v.evalTypeAssert(fr, st, x, false)
 	case *ast.ArrayType:
 		return TypeRef{v.resolveType(fr, x)}
 	}
@@ -786,6 +786,8 @@ func (v *Verifier) evalUnary(fr *Frame, st *State, x *ast.UnaryExpr) Val {
 		return Scalar{c.BVNot(s.T), s.Typ}
 	case token.ADD:
 		return v.eval(fr, st, x.X)
+	case token.ARROW:
+		return v.evalRecv(fr, st, x)
 	}
 	panic(unsupportedf(x.Pos(), "unary %s", x.Op))
 }
@@ -1040,6 +1042,8 @@ func (v *Verifier) valEqDyn(l, r Val, pos token.Pos) *Term {
 			if lp.Loc != nil || rp.Loc != nil {
 				panic(unsupportedf(pos, "comparison of static and symbolic pointers"))
 			}
+			c := v.eng.C
+			return c.Or(c.And(lp.Nil, rp.Nil), c.And(c.Not(lp.Nil), c.Not(rp.Nil), c.Eq(lp.Ref, rp.Ref)))
 		}
 	}
 	defer func() {
@@ -1360,4 +1364,30 @@ func (v *Verifier) bvToInt(t *Term, signed bool) *Term {
 	w := t.Sort.W
 	neg := c.Eq(c.Extract(w-1, w-1, t), c.BVu(1, 1))
 	return c.Ite(neg, c.ISub(n, c.Int(new(big.Int).Lsh(big.NewInt(1), uint(w)))), n)
+}
+
+// evalTypeAssert: x.(T) on an interface value yields an unconstrained value of type T
+// (a sound over-approximation); the comma-ok form adds an unconstrained bool.
+func (v *Verifier) evalTypeAssert(fr *Frame, st *State, x *ast.TypeAssertExpr, commaOk bool) Val {
+	c := v.eng.C
+	v.eval(fr, st, x.X)
+	t := v.typeOf(fr, x.Type)
+	if t == nil {
+		panic(unsupportedf(x.Pos(), "type switch guard"))
+	}
+	sh := v.eng.shapeOf(t)
+	var wf []*Term
+	val := v.eng.freshVal(sh, "assert", &wf)
+	for _, w := range wf {
+		st.assume(w)
+	}
+	if !commaOk {
+		v.notes = append(v.notes, v.prog.fset.Position(x.Pos()).String()+": type assertion assumed to succeed; result unconstrained")
+		if p, ok := val.(PtrVal); ok {
+			p.Nil = c.Fresh("assert#nil", BoolSort)
+			val = p
+		}
+		return val
+	}
+	return TupleVal{[]Val{val, Scalar{c.Fresh("assert#ok", BoolSort), types.Typ[types.Bool]}}}
 }
